@@ -99,7 +99,18 @@ pub proof fn axiom_token_lines(t: TokenReference)
             tok_nl(t) == puts_on_new_line(tr_lead(t)),            // "the leading trivia of t puts the token itself at the start of a new line"
             tok_followed_by_ws(t) == (tr_trail(t).len() > 0),     // something stands between the token and what is printed next
             tok_of(t) == tok_of_token(tr_token(t)),               // the identity of a token reference is that of its token
+            tok_has_single_comment(t) == has_single(tr_trail(t)), // has_trailing_comments(Single): a single line comment somewhere in the trailing trivia
 { admit(); }
+pub uninterp spec fn tok_has_single_comment(t: TokenReference) -> bool;
+pub open spec fn has_single(v: Seq<Token>) -> bool { exists|i: int| 0 <= i < v.len() && is_line_comment_tok(#[trigger] v[i]) }
+pub proof fn lemma_has_single_append_plain(a: Seq<Token>, b: Seq<Token>)
+    requires forall|i: int| 0 <= i < b.len() ==> !is_line_comment_tok(#[trigger] b[i]),
+    ensures has_single(a + b) == has_single(a),
+{
+    let v = a + b;
+    if has_single(v) { let i = choose|i: int| 0 <= i < v.len() && is_line_comment_tok(#[trigger] v[i]); if i >= a.len() { assert(v[i] == b[i - a.len()]); } else { assert(a[i] == v[i]); } }
+    if has_single(a) { let i = choose|i: int| 0 <= i < a.len() && is_line_comment_tok(#[trigger] a[i]); assert(v[i] == a[i]); }
+}
 pub uninterp spec fn tok_of_token(t: Token) -> int;
 pub proof fn axiom_tok_of_all() ensures forall|t: TokenReference| #[trigger] tok_of(t) == tok_of_token(tr_token(t)) { assert forall|t: TokenReference| #[trigger] tok_of(t) == tok_of_token(tr_token(t)) by { axiom_token_lines(t); } }
 pub uninterp spec fn tok_followed_by_ws(t: TokenReference) -> bool;
@@ -541,6 +552,7 @@ pub proof fn lemma_token_trailing_proxy(s: TokenReference, t: FormatTriviaType, 
                 lemma_trail_open_append_newline(tr_trail(s), v@);
             }
             if no_line_comment(v@) && trail_open(tr_trail(s) + v@) { lemma_trail_open_append_plain(tr_trail(s), v@); }
+            if no_line_comment(v@) { lemma_has_single_append_plain(tr_trail(s), v@); }
         },
         _ => {}
     }
